@@ -57,3 +57,32 @@ Qed.
 Theorem C20_pinned_less_refuted : equals_with less_pinned witness_a witness_b = false.
 Proof. exact pinned_less_refuted. Qed.
 Print Assumptions C20_pinned_less_refuted.
+
+(* ---- the circumcircle predicate of the triangulation (sdf/triangle2.go), over the reals *)
+From Coq Require Import Reals.
+From Sdfx Require Import Num.Ops Num.RInst Geo.Vec Geo.NormR Algo.Delaunay Algo.DelaunayR.
+
+(* Circumcenter returns the point equidistant from the three vertices, in all three code
+   branches, for every non-collinear triangle whose y-differences are zero or outside the
+   1e-12 band in which the code switches formulas. *)
+Theorem C20_circumcenter_equidistant : forall p1 p2 p3 c,
+  well_conditioned p1 p2 p3 -> @circumcenter ROps p1 p2 p3 = Some c ->
+  d2 c p1 = d2 c p2 /\ d2 c p2 = d2 c p3.
+Proof. exact circumcenter_equidistant. Qed.
+Print Assumptions C20_circumcenter_equidistant.
+
+(* InCircumcircle: inside <-> |p-c|^2 - R^2 <= 1e-12 *)
+Theorem C20_inside_iff : forall p1 p2 p3 p c, @circumcenter ROps p1 p2 p3 = Some c ->
+  (fst (@in_circumcircle ROps p1 p2 p3 p) = true <-> (d2 p c - d2 p1 c <= reps)%R).
+Proof. exact inside_iff. Qed.
+Print Assumptions C20_inside_iff.
+
+(* the `done` shortcut is sound: once set for p, every point at or right of p is outside the circle *)
+Theorem C20_done_flag_sound : forall p1 p2 p3 p c, @circumcenter ROps p1 p2 p3 = Some c ->
+  snd (@in_circumcircle ROps p1 p2 p3 p) = true -> forall q, (vx p <= vx q)%R -> (d2 p1 c < d2 q c)%R.
+Proof. exact done_flag_sound. Qed.
+Print Assumptions C20_done_flag_sound.
+
+(* Hull coverage, the count 2n-2-h and fast = slow as sets are NOT proved (C20 partial): they are
+   decided on generated point sets by exact rational oracles, and the whole Bowyer-Watson run of
+   the Go code is reproduced triangle for triangle by the Gallina model Algo/Delaunay.v. *)
